@@ -595,6 +595,12 @@ def runEffect (st : St) (e : Nat) (er : EffRec) : St :=
   let st := st.lift (popCur · 1)
   { st with obs := saved.1, acc := saved.2 }
 
+/-- `Owner::paused` -/
+def ownerPaused (st : Core) (o : Nat) : Bool :=
+  match st.owners[o]? with
+  | some r => r.paused
+  | none => false
+
 /-- one poll of effect `e`'s task -/
 def pollEff (st : St) (e : Nat) : St :=
   match st.effs[e]? with
@@ -603,16 +609,11 @@ def pollEff (st : St) (e : Nat) : St :=
     if er.done then st
     else if !effLive st e then endTask st e   -- `rx.next()` = None
     else if !er.notified then { st with effs := st.effs.set e { er with woken := false } }
+    else if ownerPaused st.toCore er.owner || !(er.dirty || er.firstRun) then
+      { st with effs := st.effs.set e { er with woken := false, notified := false } }
     else
-      let paused := match st.owners[er.owner]? with
-        | some r => r.paused
-        | none => false
-      if paused || !(er.dirty || er.firstRun) then
-        { st with effs := st.effs.set e { er with woken := false, notified := false } }
-      else
-        let st := runEffect st e er
-        -- next loop iteration: the channel may have been closed during the run
-        if !effLive st e then endTask st e else st
+      -- after the run the loop polls the channel again: it may have been closed during the run
+      if !effLive (runEffect st e er) e then endTask (runEffect st e er) e else runEffect st e er
 
 def ready (st : St) : List Nat :=
   (List.range st.effs.length).filter fun e =>
